@@ -261,14 +261,17 @@ def ppc_load(obj,rT,rA,rB,E):
 @ispec("32<[ 011111 rT(5) rA(5) NB(5) 1010010101 - ]", mnemonic="stswx")
 def ppc_load(obj,rT,rA,NB):
     if rA==0:
-        addr = env.GPR[rB]
+        addr = env.cst(0,32)
     else:
-        addr = env.GPR[rA]+env.GPR[rB]
-    if obj.mnemonic=="lswi" and NB==0:
-        n = 32
+        addr = env.GPR[rA]
+    if obj.mnemonic in ("lswx","stswx"):
+        # indexed forms: the field is rB (the byte count is in XER)
+        addr += env.GPR[NB]
+        obj.operands = [env.GPR[rT],env.ptr(addr)]
     else:
-        n = NB
-    obj.operands = [env.GPR[rT],env.ptr(addr),NB]
+        # immediate forms: the field is the byte count NB (0 means 32)
+        n = 32 if NB==0 else NB
+        obj.operands = [env.GPR[rT],env.ptr(addr),env.cst(n,6)]
     obj.type = type_data_processing
 
 @ispec("32<[ 00111 s rT(5) rA(5) SI(16) ]", mnemonic="addi")
